@@ -107,13 +107,20 @@ pub fn strategy() -> BoxedStrategy<Case> {
         proptest::option::weighted(0.15, 1usize..40),
         proptest::option::weighted(0.25, t_eval_fracs(8)),
         any::<bool>(),
-        (0u8..25, proptest::option::weighted(0.3, fr(0.05, 0.95))),
+        (0u8..25, proptest::option::weighted(0.3, fr(0.05, 0.95)), 0u16..150, fr(3.0, 4.3)),
     )
-        .prop_map(|(prob, span, method, (rtol, atol), analytic_jac, first_step, max_steps, t_eval, dense, (z, terminal_at))| {
+        .prop_map(|(mut prob, span, mut method, (rtol, atol), analytic_jac, first_step, mut max_steps, t_eval, dense, (z, terminal_at, stiff, le))| {
             let first_step = match (method, first_step) {
                 (Meth::RK4, Some(f)) => Some(f.max(0.004)),
                 (_, f) => f,
             };
+            if stiff == 0 && z != 0 {
+                // one case in 150: a stiff decay handed to DOPRI5 / DOP853, so that the run ends through the solver's own
+                // stiffness detection (ProbablyStiff) after a thousand steps: the counters of that exit path
+                prob = ProbSpec { blocks: vec![Block::Real { lam: -(10f64.powf(le)), u0: 1.0 }, Block::Real { lam: -0.5, u0: 0.7 }], warp: Warp { theta: 8.0, k: 0, beta: 0.0 }, mix: None, mag2: 0 };
+                method = if analytic_jac { Meth::DOPRI5 } else { Meth::DOP853 };
+                max_steps = None;
+            }
             Case { prob, span, method, rtol, atol, analytic_jac, first_step, max_steps, t_eval, dense, zero_length: z == 0, terminal_at }
         })
         .boxed()
